@@ -15,7 +15,7 @@ ENGINES = {
         timing_sensitive=True,
         tier_in_focus=True,
         timing_props=[17],
-        timing_clauses=[[3, 8], [18, 9]],   # 'must end clean': a clean end that is merely late (machine load) is re-run alone
+        timing_clauses=[[3, 8], [18, 9], [17, 3]],   # 'must end clean': a clean end that is merely late (machine load) is re-run alone
         rule='random configuration trees (1-2 roots, depth <= 3, <= 10 nodes; thorough: <= 3 roots, depth <= 4, <= 17 nodes; sync/fanout/async kinds, workers 1-3, '
              'buffers 1-3, disabled and discarding nodes incl. roots, sync/async error handlers with 1-3 workers) driven (a) in lockstep through gated '
              'scenarios of 5-45 (thorough 20-110) generator intents (emit / release the k-th waiting call with outcome pass-same-event, transform, '
